@@ -75,6 +75,10 @@ func (s *kState) FindView(h uint64, r uint32, reason string) (*tmconsensus.Versi
 		if r < cr {
 			return nil, 0, ViewBeforeCommitting
 		}
+
+		// The committing height was decided in the committing round;
+		// later rounds at that height were orphaned by the commit.
+		return nil, 0, ViewOrphaned
 	}
 
 	if h < s.Committing.Height {
@@ -86,10 +90,10 @@ func (s *kState) FindView(h uint64, r uint32, reason string) (*tmconsensus.Versi
 		return nil, 0, ViewFuture
 	}
 
-	panic(fmt.Errorf(
-		"TODO: unhandled attempt to find view (reason: %s, request: %d/%d, voting view: %d/%d, committing view: %d/%d)",
-		reason, h, r, s.Voting.Height, s.Voting.Round, s.Committing.Height, s.Committing.Round,
-	))
+	// The only heights left are those between the committing and voting heights,
+	// which exist only before the first commit when the initial height is above one.
+	// They precede anything this mirror tracks.
+	return nil, 0, ViewBeforeCommitting
 }
 
 // MarkCommittingViewUpdated increments the version of s's committing view,
